@@ -162,6 +162,11 @@ class Prov:
                     base = itv.value if isinstance(itv, ast.Subscript) else itv
                     if norm(a.elt) in (f"str({v})", v) and isinstance(base, ast.Name) and base.id == "words":
                         return "SRC"
+                if isinstance(a, ast.Call) and dotted(a.func) == "map" and len(a.args) == 2 and norm(a.args[0]) == "str":
+                    itv = a.args[1]
+                    base = itv.value if isinstance(itv, ast.Subscript) else itv
+                    if isinstance(base, ast.Name) and base.id == "words":
+                        return "SRC"
                 return f"OTHER:join {norm(e)[:40]}"
             if f == "str" and len(e.args) == 1:
                 if isinstance(e.args[0], ast.Name) and self._ranges_over_words(e.args[0].id):
@@ -503,8 +508,10 @@ def run(ctx: Ctx):
         "match_on_tokens assembles only from prefix + str(words[i]) of tokens adjacent to the citation; R-C17-2 on every path that stores "
         "groups of a forward (backward) match the full-span end (start) is extended over the same match, and party names are stored together "
         "with the start from the same scan; R-C17-3 the copies in is_parallel_citation are controlled by equality of *defined* full-span "
-        "starts and the call site passes the immediately preceding FullCaseCitation.  NOT decided: that the character ranges coincide "
-        "(span arithmetic is value-level, e.g. len(plaintiff) + 1 in add_defendant)."
+        "starts and the call site passes the immediately preceding FullCaseCitation.  R-C17-4 width accounting of the backward party scan: on every path through an "
+        "iteration the accumulated offset is the exact summed width of a contiguous run of scanned words (left-trimmed like the plaintiff), the "
+        "plaintiff and defendant are trims of exactly those runs, and the start is stored from the unchanged sum.  NOT decided: character "
+        "ranges produced by regex match positions (add_pre_citation / forward scans: value-level)."
     )
     ctx.trusted = ["the checker", "mypy Optional/receiver types", "regex group values are substrings of the searched text"]
     ctx.assumptions = ["court (a courts-db id) and the numeric span fields are not textual metadata"]
@@ -514,8 +521,12 @@ def run(ctx: Ctx):
     ctx.guard(rule_extent_writers, ctx)
     ctx.guard(rule_parallel_copy, ctx, typed)
     from .c19 import rule_append_order
+    from ..backscan import rule_backscan
+
+    ctx.guard(rule_backscan, ctx, "R-C17-4", False)
 
     ctx.guard(rule_append_order, ctx, "R-C17-3")
     ctx.floor("R-C17-1", 25)
     ctx.floor("R-C17-2", 5)
     ctx.floor("R-C17-3", 5)
+    ctx.floor("R-C17-4", 6)
